@@ -176,7 +176,7 @@ def run_tlc(module, cfg=None, env=None, workers=1, extra=(), timeout=3600, simul
             depth_first=False, coverage=False, ctx=None, expect_fail=False, tag=None):
     cfg = cfg or (module + '.cfg')
     meta = tempfile.mkdtemp(prefix='tlc_', dir=ctx.tmp if ctx else SCRATCH_BASE)
-    jopts = ['-XX:+UseParallelGC', '-Xss16m', '-Xmx%s' % os.environ.get('VERIF_TLC_XMX', '6g')]
+    jopts = ['-XX:+UseParallelGC', '-Xss16m', '-Xmx%s' % os.environ.get('VERIF_TLC_XMX', '4g')]
     if depth_first:
         jopts.append('-Dtlc2.tool.queue.IStateQueue=StateDeque')
     cmd = ['java'] + jopts + ['-cp', JAVA_CP, 'tlc2.TLC', '-workers', str(workers), '-metadir', meta,
@@ -246,8 +246,16 @@ def _matches(match, key):
 
 
 def load_findings():
+    res = []
     p = os.path.join(VERIF, 'KNOWN_FINDINGS.json')
-    if not os.path.exists(p):
-        return []
-    with open(p) as f:
-        return json.load(f).get('findings', [])
+    if os.path.exists(p):
+        with open(p) as f:
+            res += json.load(f).get('findings', [])
+    # per-property staging files (merged into KNOWN_FINDINGS.json by tools/merge_findings.py)
+    d = os.path.join(VERIF, 'known_findings.d')
+    if os.path.isdir(d):
+        for fn in sorted(os.listdir(d)):
+            if fn.endswith('.json'):
+                with open(os.path.join(d, fn)) as f:
+                    res += json.load(f).get('findings', [])
+    return res
